@@ -373,7 +373,8 @@ where
         if let Some((line_num, pos, byte)) = self.first_byte()? {
             if byte == b'>' {
                 self.buf_pos.start = pos;
-                self.position.byte = pos as u64;
+                // `position.byte` holds the file offset of the buffer start at this point
+                self.position.byte += pos as u64;
                 self.position.line = line_num as u64;
                 self.search_pos = pos + 1;
                 return Ok(true);
@@ -403,10 +404,14 @@ where
                 pos += line.len() + 1;
                 last_line_len = line.len();
             }
-            // If an orphan '\r' is found at the end of the buffer,
-            // we need to move it to the start and re-search the line
-            self.buf_reader.consume(pos - 1 - last_line_len);
+            // The last (possibly incomplete) line, e.g. an orphan '\r' at the end of the
+            // buffer, is moved to the start and searched again: it must not be counted twice
+            line_num -= 1;
+            let consumed = pos - 1 - last_line_len;
+            self.buf_reader.consume(consumed);
             self.buf_reader.make_room();
+            // keep track of the file offset of the buffer start
+            self.position.byte += consumed as u64;
         }
         Ok(None)
     }
